@@ -11,7 +11,7 @@
    decisions come from Gen/C22.v, regenerated from handler.go on every run. *)
 From Coq Require Import ZArith List Bool String.
 Import ListNotations.
-From Verif Require Import Lib.Corr Gen.C22 Model.C22 Proofs.C22 Proofs.C22_dist Proofs.C22_send.
+From Verif Require Import Lib.Corr Gen.C22 Model.C22 Proofs.C22 Proofs.C22_dist Proofs.C22_send Proofs.C22_timeout.
 Open Scope Z_scope.
 
 (* canReturnEarly and the decisions of fanoutForward's response loop still have
@@ -78,11 +78,56 @@ Theorem C22_request_pred : forall rf rep place ws, 1 <= rf -> 0 <= rep ->
   exists o, handle rf rep place ws = Some o
     /\ (o = OAck -> rep <= rf ->
         quorum_everywhere (List.length place) (success_threshold rf rep) (resps_of place ws) = true
-        /\ exists k, (k <= List.length ws)%nat /\ forall d obs obsr, (k <= d)%nat ->
-             pred_ok (CAck rf rep place ws obs obsr 200 d) = true)
+        /\ exists k, (k <= List.length ws)%nat /\ forall d hg obs obsr, (k <= d)%nat ->
+             pred_ok (CAck rf rep place ws hg obs obsr 200 d) = true)
     /\ (o = OFail -> quorum_everywhere (List.length place) (success_threshold rf rep) (resps_of place ws) = false).
 Proof. exact handle_pred. Qed.
 Print Assumptions C22_request_pred.
+
+(* ---- the forward timeout ----
+   [loop_ev] is the response loop with the ctx.Done event (forward timeout or
+   cancellation) as an input at any position; peers that never answer
+   contribute no response, so with hung peers the events end with ECtxDone.
+   A loop whose next event is ctx.Done returns ctx.Err() — never an Ack —
+   whatever was received before: *)
+Theorem C22_timeout_never_acks : forall q ft st tail, loop_ev q ft st (ECtxDone :: tail) = EvTimedOut.
+Proof. exact ctx_done_times_out. Qed.
+Print Assumptions C22_timeout_never_acks.
+
+(* Without that event the loop is the one of the theorems above. *)
+Theorem C22_loop_without_timeout : forall q ft rs st, loop_ev q ft st (map EResp rs) = ev_of (loop q ft st rs).
+Proof. exact loop_ev_no_ctx. Qed.
+Print Assumptions C22_loop_without_timeout.
+
+(* With hung peers (any number, any position, no assumption on how many
+   responses arrive) an acknowledgement can only come from the early return:
+   after a consumed prefix in which every series is decided and has its quorum. *)
+Theorem C22_hung_peers_ack_only_after_quorum : forall q ft n rs tail,
+  loop_ev q ft (repeat sst0 n) (map EResp rs ++ ECtxDone :: tail) = EvAck ->
+  exists k, (1 <= k <= List.length rs)%nat
+    /\ can_return_early q ft (reach n (firstn k rs)) = true
+    /\ quorum_everywhere n q (firstn k rs) = true.
+Proof. exact loop_ev_hang_ack. Qed.
+Print Assumptions C22_hung_peers_ack_only_after_quorum.
+
+Theorem C22_hung_peers_without_quorum_not_acked : forall q ft n rs tail s, (s < n)%nat -> successes_of s rs < q ->
+  loop_ev q ft (repeat sst0 n) (map EResp rs ++ ECtxDone :: tail) <> EvAck.
+Proof. exact hang_without_quorum_not_ack. Qed.
+Print Assumptions C22_hung_peers_without_quorum_not_acked.
+
+(* Whole request with hung peers and the predicate of the check; without hung
+   peers handle_ev is handle. *)
+Theorem C22_request_pred_hung_peers : forall rf rep place ws, 1 <= rf -> 0 <= rep ->
+  exists o, handle_ev rf rep place ws true = Some o
+    /\ (o = OAck -> rep <= rf ->
+        exists k, (k <= List.length ws)%nat /\ forall d hg obs obsr, (k <= d)%nat ->
+          pred_ok (CAck rf rep place ws hg obs obsr 200 d) = true).
+Proof. exact handle_ev_hang_pred. Qed.
+Print Assumptions C22_request_pred_hung_peers.
+
+Theorem C22_request_without_hung_peers : forall rf rep place ws, handle_ev rf rep place ws false = handle rf rep place ws.
+Proof. exact handle_ev_no_hang. Qed.
+Print Assumptions C22_request_without_hung_peers.
 
 (* ---- where the responses come from ----
    distributeTimeseriesToReplicas: the groups have distinct (node, replica)
@@ -144,8 +189,8 @@ Theorem C22_request_pred_from_sender : forall rf rep place ws ls s, 1 <= rf -> 0
   exists o, handle rf rep place ws = Some o
     /\ (o = OAck -> rep <= rf ->
         quorum_everywhere (List.length place) (success_threshold rf rep) (resps_of place ws) = true
-        /\ exists k, (k <= List.length ws)%nat /\ forall d obs obsr, (k <= d)%nat ->
-             pred_ok (CAck rf rep place ws obs obsr 200 d) = true)
+        /\ exists k, (k <= List.length ws)%nat /\ forall d hg obs obsr, (k <= d)%nat ->
+             pred_ok (CAck rf rep place ws hg obs obsr 200 d) = true)
     /\ (o = OFail -> quorum_everywhere (List.length place) (success_threshold rf rep) (resps_of place ws) = false).
 Proof. exact handle_pred_sender. Qed.
 Print Assumptions C22_request_pred_from_sender.
@@ -160,5 +205,7 @@ Example C22_nonvacuous :
   /\ distribute place (replicas_of 3 0) = [((0,0),[0]); ((1,1),[0]); ((2,2),[0]); ((1,0),[1]); ((2,1),[1]); ((3,2),[1])]%nat
   /\ option_map schan (srun (sinit [(0,0);(1,1);(2,2)]%nat)
         [S1Accept; S1Reject; S1ConnFail; S1End; SWorkSend (0,0)%nat; S2Accept; S2End; SWorkSend (1,1)%nat; SWorkDone (1,1)%nat; SWorkDone (0,0)%nat; SClose])
-      = Some [(2,2);(0,0);(1,1)]%nat.
+      = Some [(2,2);(0,0);(1,1)]%nat
+  /\ handle_ev 3 0 [[0;1;2]]%nat [(0,0,KOk)]%nat true = Some OFail
+  /\ handle_ev 3 0 [[0;1;2]]%nat [(0,0,KOk);(2,2,KOk)]%nat true = Some OAck.
 Proof. vm_compute. repeat split; reflexivity. Qed.
